@@ -2,6 +2,7 @@ package props
 
 import (
 	"bytes"
+	"encoding/hex"
 	"fmt"
 	"os"
 	"path/filepath"
@@ -21,6 +22,7 @@ type CLICase struct {
 	Kind string `json:"kind"` // argv | prog | comment | failing
 	// argv
 	Args  []string `json:"args,omitempty"` // symbolic: SRC, DST, MISSING, DIR, UNDERFILE, NODIR/x, LIST, -d
+	Coff  bool     `json:"coff,omitempty"` // argv: the source is a WCOFF program (the object writer opens the file itself)
 	Debug bool     `json:"debug,omitempty"`
 	// prog / comment / failing
 	Src      string   `json:"src,omitempty"`
@@ -38,6 +40,7 @@ func cliDir() string {
 }
 
 const goodSrc = "\tORG 0x7c00\n\tMOV AX,1\nlbl:\n\tJMP lbl\n\tDB \"ok\"\n"
+const goodCoffSrc = "[FORMAT \"WCOFF\"]\n[BITS 32]\n[FILE \"a.nas\"]\n\tGLOBAL _f\n[SECTION .text]\n_f:\n\tMOV EAX,1\n\tRET\n"
 
 func checkC19(c CLICase) Verdict {
 	v := Verdict{Class: c.Kind}
@@ -53,12 +56,16 @@ func checkC19(c CLICase) Verdict {
 	}
 	switch c.Kind {
 	case "argv":
-		v.Key = "argv|" + strings.Join(c.Args, " ")
+		v.Key = fmt.Sprintf("argv|%v|", c.Coff) + strings.Join(c.Args, " ")
 		src := filepath.Join(dir, "a-src.nas")
 		dst := filepath.Join(dir, "a-dst.bin")
 		reg := filepath.Join(dir, "a-regular")
 		sub := filepath.Join(dir, "a-subdir")
-		os.WriteFile(src, []byte(goodSrc), 0o644)
+		theSrc := goodSrc
+		if c.Coff {
+			theSrc = goodCoffSrc
+		}
+		os.WriteFile(src, []byte(theSrc), 0o644)
 		os.WriteFile(reg, []byte("x"), 0o644)
 		os.MkdirAll(sub, 0o755)
 		os.Remove(dst)
@@ -121,7 +128,7 @@ func checkC19(c CLICase) Verdict {
 				out = filepath.Join(dir, "a-list.lst")
 			}
 			got, _ := os.ReadFile(out)
-			ref := asm.Assemble(goodSrc)
+			ref := asm.Assemble(theSrc)
 			os.Remove(out)
 			if !bytes.Equal(got, ref.Out) {
 				return fail("bytes", "gosk %s exits 0 but the output file holds % x, the image is % x", strings.Join(c.Args, " "), head(got, 24), head(ref.Out, 24))
@@ -187,7 +194,11 @@ func checkC19(c CLICase) Verdict {
 			if i < len(c.Comments) && c.Comments[i] != "" {
 				txt := c.Comments[i]
 				var raw []byte
-				if c.Enc == "sjis" {
+				if c.Enc == "raw" {
+					// arbitrary bytes (hex-encoded in the case): unassigned / user-defined Shift_JIS codes, lone lead
+					// bytes, U+FFFD and other sequences neither decoder maps cleanly
+					raw, _ = hex.DecodeString(txt)
+				} else if c.Enc == "sjis" {
 					b, err := enc.Bytes([]byte(txt))
 					if err != nil {
 						v.Skip = "text not representable in Shift_JIS"
@@ -306,7 +317,7 @@ var propC19 = &Prop[CLICase]{
 				}
 				args = append(args, a)
 			}
-			return CLICase{Kind: "argv", Args: args}
+			return CLICase{Kind: "argv", Args: args, Coff: rapid.IntRange(0, 2).Draw(t, "coffsrc") == 0}
 		case 3, 4, 5:
 			var src string
 			switch rapid.IntRange(0, 3).Draw(t, "pk") {
@@ -339,7 +350,31 @@ var propC19 = &Prop[CLICase]{
 					coms[i] = strings.Join(ws, rapid.SampledFrom([]string{"", " ", "、"}).Draw(t, "sep"))
 				}
 			}
-			return CLICase{Kind: "comment", Src: src, Comments: coms, Enc: rapid.SampledFrom([]string{"sjis", "utf8"}).Draw(t, "enc")}
+			enc := rapid.SampledFrom([]string{"sjis", "utf8", "raw"}).Draw(t, "enc")
+			if enc == "raw" {
+				for i := range coms {
+					if coms[i] == "" {
+						continue
+					}
+					var b []byte
+					for k := rapid.IntRange(1, 8).Draw(t, "rawn"); k > 0; k-- {
+						switch rapid.IntRange(0, 5).Draw(t, "rawk") {
+						case 0: // user-defined / unassigned double-byte area
+							b = append(b, byte(rapid.IntRange(0xf0, 0xfc).Draw(t, "rl")), byte(rapid.SampledFrom([]int{0x40, 0x5c, 0x7c, 0x7e, 0x80, 0xfc}).Draw(t, "rt")))
+						case 1: // lone lead byte
+							b = append(b, byte(rapid.SampledFrom([]int{0x81, 0x9f, 0xe0, 0xfc, 0x80, 0xa0, 0xfd, 0xff}).Draw(t, "rlone")))
+						case 2: // U+FFFD and friends in UTF-8
+							b = append(b, []byte(rapid.SampledFrom([]string{"\uFFFD", "\u00e9", "\U0001F600", "\u200b"}).Draw(t, "ru"))...)
+						case 3:
+							b = append(b, byte(rapid.IntRange(0x20, 0xff).Draw(t, "rany")))
+						default:
+							b = append(b, []byte(rapid.SampledFrom([]string{"\\", "|", "~", "ｿ", ";", "#"}).Draw(t, "rascii"))...)
+						}
+					}
+					coms[i] = hex.EncodeToString(b)
+				}
+			}
+			return CLICase{Kind: "comment", Src: src, Comments: coms, Enc: enc}
 		default:
 			return CLICase{Kind: "failing", Src: goodSrc + rapid.SampledFrom(failingSrcs).Draw(t, "fsrc"), Prefill: rapid.SampledFrom([]int{0, 3, 64, 4096}).Draw(t, "prefill")}
 		}
